@@ -125,3 +125,5 @@ func loadRegressions(t testing.TB, prop string) []regressCase {
 	}
 	return out
 }
+
+func jsonUnmarshal(b []byte, v any) error { return json.Unmarshal(b, v) }
